@@ -1,13 +1,14 @@
 #!/bin/sh
 # usage: seed_sweep.sh <first-seed> <last-seed> [props...]   -- quick checks over several seeds on the unchanged tree,
 # in a scratch copy of the Coq tree and a scratch evidence directory; prints every VIOLATION line
+VH="$(cd "$(dirname "$0")/.." && pwd)"   # this copy of /verif (a vp-run snapshot works too)
 A=$1; B=$2; shift 2
-PROPS="${*:-$(python3 -c "import json;print(' '.join(c['property_id'] for c in json.load(open('/verif/MANIFEST.json'))['checks']))")}"
+PROPS="${*:-$(python3 -c "import json;print(' '.join(c['property_id'] for c in json.load(open('$VH/MANIFEST.json'))['checks']))")}"
 CQ=/tmp/sweep.$$.coq; EV=/tmp/sweep.$$.ev
-cp -a /verif/coq $CQ
+cp -a $VH/coq $CQ
 for s in $(seq $A $B); do
   for p in $PROPS; do
-    out=$(cd /verif && VERIF_SEED=$s VERIF_COQ=$CQ VERIF_EVIDENCE=$EV ./check $p --tier quick 2>&1); rc=$?
+    out=$(cd "$VH" && VERIF_SEED=$s VERIF_COQ=$CQ VERIF_EVIDENCE=$EV ./check $p --tier quick 2>&1); rc=$?
     [ $rc -ne 0 ] && { echo "seed=$s $p exit=$rc"; echo "$out" | grep -E "VIOLATION|Traceback|Error" | head -3; mkdir -p /tmp/sweep_keep; cp $EV/replay/${p}_* /tmp/sweep_keep/ 2>/dev/null; }
   done
   echo "seed $s done"
